@@ -129,6 +129,9 @@ def check_writeback(ctx, res: Result):
             for t, val in zip(n.targets[0].elts, n.value.elts):
                 if isinstance(val, ast.Subscript) and isinstance(val.slice, ast.Name):
                     read_from[norm(t)] = val.slice.id
+        # (canonical form: one plain assignment per component)
+        if isinstance(n, ast.Assign) and len(n.targets) == 1 and isinstance(n.targets[0], ast.Name) and isinstance(n.value, ast.Subscript) and isinstance(n.value.slice, ast.Name):
+            read_from[n.targets[0].id] = n.value.slice.id
     replaces = {}
     for n in walk_no_nested(prop.node):
         if isinstance(n, ast.Assign) and isinstance(n.targets[0], ast.Tuple) and isinstance(n.value, ast.Call) and "pairwise_reshuffle" in norm(n.value.func):
